@@ -212,7 +212,12 @@ def check(case):
             next_dt, (dT, dY) = integ(rhs, t, y, cdict, h)
         except FailedToMeetTolerances as e:
             labels.append("reported_failure")
-            if case.get("linear") and M.family(cls) == "implicit_fixed" and dtname != "float32":
+            blown = float(np.max(np.abs(np.asarray(y, dtype=np.float64)))) > 1e8 * (1.0 + float(np.max(np.abs(np.asarray(case["y"], dtype=np.float64)))))
+            if blown:
+                # an earlier step sat next to a pole of the stability function (ImplicitMidpoint at h J = 2: the stage system is
+                # solvable but its solution is 1e17) and the state is astronomically large: nothing to conclude from a failure now
+                labels.append("state_blown_up_by_an_earlier_step")
+            if case.get("linear") and M.family(cls) == "implicit_fixed" and dtname != "float32" and not blown:
                 # linear stage system (I - h A (x) J) K = rhs: unless it is close to singular, failing to solve it means the
                 # solver was handed a wrong Jacobian. (Only methods without an error estimator: an embedded pair also raises
                 # this when its error test cannot be met - RadauIIA19 in float32 - which says nothing about the stage solve.)
